@@ -104,6 +104,16 @@ def cat(parts):
             out[-1] = C(out[-1][1] + p[1])
         else:
             out.append(p)
+    # widening: an accumulation in a loop (`n += len(x)`, `s += piece`) repeats the same non-constant part; a run of it
+    # is kept as the part followed by one ("rep", part) marker, so that the loop reaches a fixed point
+    wid = []
+    for p in out:
+        if not is_const(p) and wid and (wid[-1] == p or wid[-1] == ("rep", p)):
+            if wid[-1] == p:
+                wid.append(("rep", p))
+            continue
+        wid.append(p)
+    out = wid
     if len(out) == 1:
         return out[0]
     return ("cat", tuple(out))
@@ -173,7 +183,7 @@ _TAGS = {
     "listof", "elem", "listdir", "listed", "inst", "selfattr", "callres", "exc", "unknown",
     "probe", "strop", "opt", "int", "self", "hashof", "dictzip", "cmp", "not", "and", "or",
     "stem", "suffix", "bool", "setof", "readlines", "hexdigests", "hashobjs", "module",
-    "class", "func", "walk", "abspath", "orelse", "iattr", "hexdigest", "closing", "obj", "line", "slice", "arith",
+    "class", "func", "walk", "abspath", "orelse", "iattr", "hexdigest", "closing", "obj", "line", "slice", "arith", "rep",
 }
 
 
